@@ -1,0 +1,68 @@
+//go:build verif
+
+// Machine-checked contracts for this package (guard: build tag `verif`; this file contains comments only).
+// Read by /verif/bin/govc: each `//@ unit` section is one verification unit (the functions matching `filter`,
+// verified against the contracts of the section; callees are used through their contracts only).
+
+package caskettls
+
+//@ unit make_tls_config props=C06 filter=`caskettls\.MakeTLSConfig$`
+//@ func (*Config).buildStandardTLSConfig
+//@   modifies Config.tlsConfig, Config.ALPN
+//@ func assertConfigsCompatible
+//@   pure reads Config
+
+//@ extern fmt.Errorf
+//@   ensures result != nil
+
+//@ func MakeTLSConfig
+//@   requires forall(k, 0, len(configs), configs[k] != nil)
+//@   ensures [no_mixing] (result1 == nil && len(configs) > 0) ==> forall(k, 0, len(configs), configs[k] != nil && configs[k].Enabled == configs[0].Enabled)
+//@   ensures [disabled_gives_nil] (result1 == nil && len(configs) > 0 && !configs[0].Enabled) ==> result0 == nil
+//@   loop 1 invariant 0 <= #i && #i <= len(configs)
+//@   loop 1 invariant forall(k, 0, #i, configs[k] != nil)
+//@   loop 1 invariant forall(k, #i, len(configs), configs[k] == old(configs[k]))
+//@   loop 1 invariant forall(k, 0, #i, configs[k].Enabled == configs[0].Enabled)
+
+//@ unit qualifies props=C15 filter=`caskettls\.QualifiesForManagedTLS$`
+//@ extern invoke:(github.com/tmpim/casket/caskettls.ConfigHolder).TLSConfig
+//@   pure
+//@ extern invoke:(github.com/tmpim/casket/caskettls.ConfigHolder).Port
+//@   pure
+//@ extern invoke:(github.com/tmpim/casket/caskettls.ConfigHolder).Host
+//@   pure
+//@ extern github.com/caddyserver/certmagic.SubjectQualifiesForPublicCert
+//@   pure
+
+//@ define tc() *Config = c.TLSConfig()
+//@ define od() bool = tc().Manager.OnDemand != nil
+//@ func QualifiesForManagedTLS
+//@   ensures [nil_holder] c == nil ==> !result
+//@   ensures [no_manager] (c != nil && (tc() == nil || tc().Manager == nil)) ==> !result
+//@   ensures [conjunction] (c != nil && tc() != nil && tc().Manager != nil) ==> (result == ((!tc().Manual || od()) && !tc().SelfSigned && c.Port() != "80" && tc().ACMEEmail != "off" && (certmagic.SubjectQualifiesForPublicCert(c.Host()) || od())))
+
+//@ unit get_config props=C06 filter=`caskettls\.configGroup\)\.getConfig$`
+//@ spec nparts(s string, sep string) int
+//@ spec part(s string, sep string, j int) string
+//@ spec cand(host string, k int) string
+//@ extern strings.Split
+//@   ensures len(result) == nparts(s, sep) && nparts(s, sep) >= 1
+//@   ensures forall(j, 0, len(result), result[j] == part(s, sep, j))
+//@ extern strings.Join
+//@   pure reads E:string
+//@ axiom (l []string, host string, k int) (len(l) == nparts(host, ".") && 0 <= k && k <= len(l) && forall(j, 0, k, l[j] == "*") && forall(j, k, len(l), l[j] == part(host, ".", j))) ==> strings.Join(l, ".") == cand(host, k)
+//@ func normalizedName
+//@   pure
+
+//@ define nm() string = normalizedName(hello.ServerName)
+//@ func (configGroup).getConfig
+//@   requires hello != nil && cg != nil && forallT(k, string, has(cg, k) ==> cg[k] != nil)
+//@   ensures [exact_first] (nm() != "" && has(cg, nm())) ==> result == cg[nm()]
+//@   ensures [least_wildcards] (nm() != "" && !has(cg, nm()) && exists(k, 1, nparts(nm(), ".")+1, has(cg, cand(nm(), k)))) ==> exists(k, 1, nparts(nm(), ".")+1, has(cg, cand(nm(), k)) && result == cg[cand(nm(), k)] && forall(j, 1, k, !has(cg, cand(nm(), j))))
+//@   ensures [catch_all_last] (nm() != "" && !has(cg, nm()) && forall(k, 1, nparts(nm(), ".")+1, !has(cg, cand(nm(), k))) && has(cg, "")) ==> result == cg[""]
+//@   at call strings.Join assert [join_is_cand] result == cand(name, i + 1)
+//@   loop 1 invariant 0 <= #i && #i <= len(labels) && len(labels) == nparts(name, ".")
+//@   loop 1 invariant forall(j, 0, #i, labels[j] == "*")
+//@   loop 1 invariant forall(j, #i, len(labels), labels[j] == part(name, ".", j))
+//@   loop 1 invariant forall(k, 1, #i + 1, !has(cg, cand(name, k)))
+//@   loop 1 invariant !has(cg, name)
